@@ -114,6 +114,27 @@ def seq_probe(payload):
     return out
 
 
+def seq_cases(payload):
+    """(in a pristine child) several schedules of equal size, built and run in order in ONE process."""
+    return [_case(c) for c in payload["cfgs"]]
+
+
+def _seq_chunk(seqs):
+    from .. import forkserver
+    cl = forkserver.client()
+    return [(seq, cl.call("vlib.props.c05.seq_cases", {"cfgs": seq})) for seq in seqs]
+
+
+def cost_sibling_sequences(tier):
+    """Revolve schedules of one size with different cost vectors, one after the other in one
+    pristine process (tables cached per size would leak the previous costs)."""
+    N = 16 if tier == "quick" else 30
+    vecs = ([8, 8, 16, 16], [32, 8, 16, 16], [8, 40, 0, 0], [4, 8, 16, 16])
+    for n in range(3, N + 1):
+        for sx in range(1, min(n, 6)):
+            yield [{"cls": "Revolve", "n": n, "s": sx, "c8": list(v), "passes": 1} for v in vecs]
+
+
 def _gen(job):
     tier, seed, shard, count = job
     from hypothesis import strategies as st
@@ -158,6 +179,11 @@ def _box(tier):
 
 def check_witness(data, show=False):
     w = data["witness"]
+    if data.get("kind") == "cfg-sequence" or (isinstance(w, dict) and "cfgs" in w):
+        outs = R.pristine_call("vlib.props.c05.seq_cases", {"cfgs": w["cfgs"]})
+        if show:
+            print("replaying in one fresh process: " + " ; then ".join(C.describe(c) for c in w["cfgs"]))
+        return [((C.variant(outs[-1]["cfg"]), p), w, d + " [after %s in the same process]" % C.describe(w["cfgs"][-2]), "cfg-sequence") for p, d in outs[-1]["viol"]]
     if data.get("kind") == "sequence":
         res = R.pristine_call("vlib.props.c05.seq_probe", {"pairs": w["sequence"]})
         last = res[-1] if res else {"viol": []}
@@ -245,6 +271,18 @@ def run(prop, args):
             rep.add_violation(("helper", "optimal_steps_binomial"), {"n": n, "s": s},
                               "optimal_steps_binomial(%d,%d)=%r, optimum %d" % (n, s, got, want), kind="helper")
     rep.extra["helper_calls"] = len(hres)
+    seqs = list(cost_sibling_sequences(tier))
+    for part in R.pmap(_seq_chunk, R.chunks(seqs, 32), chunksize=1):
+        for seq, outs in part:
+            for i, out in enumerate(outs):
+                rep.evaluations += 1
+                for pred, detail in out["viol"]:
+                    if i == 0:
+                        rep.add_violation((C.variant(out["cfg"]), pred), out["cfg"], detail)
+                    else:
+                        rep.add_violation((C.variant(out["cfg"]), pred), {"cfgs": seq[:i + 1]},
+                                          detail + " [after %s in the same process]" % C.describe(seq[i - 1]), kind="cfg-sequence")
+    rep.extra["cost_sibling_sequences"] = len(seqs)
     pres = R.pristine_wait(probe)
     rep.extra["boundary_probe_sequence"] = {"pairs": len(pres), "n": list(PROBE_N), "s": list(PROBE_S)}
     seen_seq = set()
@@ -264,6 +302,18 @@ def run(prop, args):
                        "stream cost model of DESIGN 2.4: forward steps = sum of (min(n1,n)-n0) over Forward actions"]
 
     def shrink(b, w):
+        if "cfgs" in w:
+            solo = R.pristine_call("vlib.props.c05.seq_cases", {"cfgs": [w["cfgs"][-1]]})
+            d = [d for p, d in solo[0]["viol"] if p == b[1]]
+            if d:
+                return w["cfgs"][-1], d[0]
+            for i in range(len(w["cfgs"]) - 1):
+                cand = [w["cfgs"][i], w["cfgs"][-1]]
+                o = R.pristine_call("vlib.props.c05.seq_cases", {"cfgs": cand})
+                d = [d for p, d in o[-1]["viol"] if p == b[1]]
+                if d:
+                    return {"cfgs": cand}, d[0] + " [after %s in the same process]" % C.describe(cand[0])
+            return None
         if "sequence" in w:
             seq = w["sequence"]
             for cand in ([seq[-1]], seq[-2:], seq):
@@ -276,5 +326,5 @@ def run(prop, args):
             return None
         small = C.shrink(w, lambda c: any(p == b[1] for p, _ in _case(c)["viol"]))
         d = [d for p, d in _case(small)["viol"] if p == b[1]]
-        return small, (d[0] if d else "")
+        return (small, d[0]) if d else None      # None: not reproducible in isolation
     return rep.finish(shrink_fn=shrink)
